@@ -50,7 +50,9 @@ class DalitzPlotDecomposition(SpinAlignment):
         return _formulate_aligned_amplitude(reaction, self.reference_subsystem)[0]
 
     def define_symbols(self, reaction: ReactionInfo) -> dict[sp.Symbol, sp.Expr]:
-        return _formulate_aligned_amplitude(reaction, self.reference_subsystem)[1]
+        # copy, because the result of _formulate_aligned_amplitude() is cached and the
+        # amplitude builder inserts kinematic variable definitions into this mapping
+        return dict(_formulate_aligned_amplitude(reaction, self.reference_subsystem)[1])
 
 
 @cache
